@@ -87,8 +87,8 @@ def oracle(case: Case, out: str):
             return v
         return None
     want = c01.expected_results(c)                       # meaning under the faults armed at that moment
-    c_nofault = rs.derive(c, reqs=[r for r in c.reqs if r[0] in ("calc", "add", "div", "out")], config={})
-    clean = iter(c01.expected_results(c_nofault))        # meaning with no fault armed
+    c_nofault = rs.derive(c, reqs=[r for r in c.reqs if r[0] in ("calc", "add", "div", "out", "repl")], config={})
+    clean = iter([w for r, w in zip(c_nofault.reqs, c01.expected_results(c_nofault)) if r[0] != "repl"])        # meaning with no fault armed
     for i, (g, w) in enumerate(zip(got, want)):
         if "#STATE" in g:
             return ("stack-or-invalidated-left", f"request {c.reqs[i]}: evaluation stack or invalidated set not empty after the request")
@@ -122,6 +122,7 @@ def oracle(case: Case, out: str):
         return ("value-after-failure", f"request #{i} {c.reqs[i]}: got {g}, expected {w} (or {w0} from the cache)")
     # every retained value is a completed computation: it equals the meaning with no fault armed
     from .c02 import _split_known
+    c = c01.final_case(c)
     inputs = {(v, tok) for (v, tok, _) in c.inputs}
     for e in _split_known(known):
         k, vals = e.split("=", 1)
@@ -174,6 +175,20 @@ def generate(rng: random.Random, tier: str):
         if rng.random() < 0.3:      # requests whose period text cannot be parsed: they fail before they start
             for _ in range(rng.randint(1, 2)):
                 reqs.insert(rng.randrange(len(reqs) + 1), ("badp", rng.randrange(len(c.vars))))
+        if kind == "ranked" and rng.random() < 0.25:
+            # the cause of the failure is a faulty DECLARATION, removed by replacing the variable in the live system: the
+            # variable first reads a variable that does not exist (it, and everything that reads it, fails and stores
+            # nothing); then the correct declaration replaces it and the same requests are made again
+            cands = [j for j, w in enumerate(c.vars) if w.formulas and not w.neutralized and w.unit != "eternity"
+                     and not any(iv == j for (iv, _, _) in c.inputs)]
+            if cands:
+                j = rng.choice(cands)
+                good = c.vars[j]
+                import dataclasses
+                bad = dataclasses.replace(good, end=None, formulas=[(1, ("o2", 0, ("c", 1), ("v", len(c.vars) + 5, "same", False)))])
+                c.vars[j] = bad
+                k = rng.randrange(len(reqs) + 1)
+                reqs = reqs[:k] + [("calc", j, rng.choice(rs.REQ_POOL[good.unit]))] + [("repl", j, good)] + reqs[max(0, k - 3):] + base
         c.reqs = reqs
         for trace in (False, True):
             c2 = rs.derive(c, config={"trace": trace})
